@@ -5,6 +5,16 @@ V = os.path.dirname(os.path.dirname(os.path.abspath(__file__)))
 props = [json.loads(l) for l in open(os.path.join(V, "properties.jsonl"))]
 
 CLAIMS = {
+ "C13": dict(
+   text="Lean 4 theorem C13_dq_var: a plain command whose arguments are double-quoted \"$N\" / \"${N}\" deliveries is expanded and planned as one foreground stage without redirections, each value arriving verbatim as exactly one argument - for every environment and every value (operators, blanks, globs, braces, $ included) that does not itself spell a command substitution. The excluded values and the unquoted form are genuine defects, refuted by kernel-checked witnesses (a value `cmd` is executed inside double quotes; X='|' builds a pipeline; X='a>b' redirects) and listed as three known-finding classes. Tied to /repo by in-process plan streams: 40 operator-bearing values x 4 delivery forms x 2 quotings x 4 positions plus random mixes, and double-quoted deliveries through the real binary with an argv helper and a created-files check.",
+   note="Trusted: Lean kernel; hand-written model; command outputs are an oracle (scripted in-process); filename-expansion deliveries are exercised by C12's streams, not by this theorem; unquoted deliveries are only checked for plan shape.",
+   technique="Lean 4 proof (composition of the C10 theorem with pass-identity and planning lemmas) + model/implementation correspondence check",
+   design="DESIGN.md §6 C13"),
+ "C19": dict(
+   text="Lean 4 theorems over the model of the calculator: C19_pratt (for every tree that standard precedence/associativity print without parentheses, pest's Pratt loop with the table regenerated from calculator/mod.rs parses the flat form back to exactly that tree; table facts are decide-d over the generated constant), C19_classify (the classification rule, both directions, all strings), C19_wrap_hom (+ - * in 64-bit mode equal exact arithmetic mod 2^64), C19_div (truncation, /0 saturation, MIN/-1), and crash freedom (C05_calc_no_panic). Tied to /repo by every string <= 5 (thorough 6) over the arithmetic alphabet through is_arithmetic and run_calculator, and 20 000 random trees over boundary operands rendered with random spacing and redundant parentheses, implementation vs model vs the Lean reference evaluator (incl. ^ with exponents 0..70).",
+   note="Trusted: Lean kernel; hand-written model of the PEG and of pest's Pratt loop; Mathlib's ring tactic in the homomorphism lemmas; float mode is structural only (Lean's Float is opaque to the kernel); ^ is checked against the exact power by the correspondence stream, not by a theorem; out-of-range literals saturate (their value is outside the statement).",
+   technique="Lean 4 proof (induction over expression trees generalised over binding power; modular arithmetic) + model/implementation correspondence check",
+   design="DESIGN.md §6 C19"),
  "C10": dict(
    text="Lean 4 theorem C10_full_holds over the model of the single-pass expander (expand_envs_in_token): for every environment - values containing $NAME, ${NAME}, $1, self or mutual references included - and every well-formed word of literal / $NAME / ${NAME} / $? / $$ segments, the result is exactly the concatenation of the current values with adjacent text preserved; the function is total, so termination holds by construction. Single-quoted tokens are never touched (C10_token_sq). The snapshot's rewrite loop is refuted by kernel-checked witnesses (rescan, divergence). Tied to /repo by in-process streams over all words of <= 2 segments (thorough 3) x 3 quotings x 12 environments, random words up to 6 segments, random `$`-heavy texts, and a sample through the binary.",
    note="Trusted: Lean kernel; hand-written model; the gate env_in_token is modelled and checked differentially but the theorem takes its verdict as a hypothesis (C10_token_dq); std::env is two finite maps; tokens holding a newline are covered by the model but not by the word grammar of the theorem.",
